@@ -8,7 +8,10 @@ Case kinds (all against the real code):
   regex : SigmaString(src).to_regex(): Python's own `re.fullmatch` on every subject up to a length bound
           over the pattern's alphabet must agree with the glob meaning of the pattern (Lean `glob`).
   slice : s[:-1], s[1:], s[1:-1], startswith/endswith/contains_special vs the model (used by C01).
-  field : escape_and_quote_field under field escaping configurations, read back by `decodeField`."""
+  field : escape_and_quote_field under field escaping configurations, read back by the strict reader `decodeField`
+          (a quoted name ends at the first unescaped quote: text after it = the name was terminated early).  A name that
+          does not read back is a violation, except: escape character outside the escape class (finding D7f), or the
+          configuration itself says not to escape the quote (unjudged:config-does-not-escape-quote)."""
 from __future__ import annotations
 import itertools, random, re
 from .common import Verdict, cps, uncps, outcome_of_exception
@@ -25,6 +28,7 @@ ASSUMPTIONS = [
     "target-language reading of a literal = greedy token reading (escape, multi-token, single-token, plain); Python's re is the target for the regex form",
     "regex subjects contain no line terminators",
     "field_escape_pattern is modelled as a character class; str/field quote patterns: always-quote or never-quote configurations only",
+    "target-language reading of a quoted field name: the escape string makes the next character literal, the first unescaped quote string ends the name (text after it = terminated early)",
 ]
 ALPHA = ["\\", "*", "?", '"', "'", ":", ".", "(", "a", "ä", "&", "%"]
 
@@ -53,6 +57,8 @@ FIELD_CFGS = [
     {"name": "noquote-esc", "escape": "\\", "chars": " \\.", "escapeQuote": True, "quote": None, "always": False},
     {"name": "q-noesc-of-esc", "escape": "\\", "chars": " ", "escapeQuote": True, "quote": "'", "always": True},   # escape char not covered
     {"name": "dq", "escape": "\\", "chars": "\\\"", "escapeQuote": False, "quote": '"', "always": True},
+    # neither field_escape_quote nor the escape class covers the quote: a name containing it is terminated early BY CONFIGURATION (unjudged)
+    {"name": "dq-noesc", "escape": "\\", "chars": "\\", "escapeQuote": False, "quote": '"', "always": True},
     {"name": "plain", "escape": None, "chars": "", "escapeQuote": True, "quote": None, "always": False},
     # a backend class derived from the first one with another quote character, used after its parent in the same process
     {"name": "dq-derived", "escape": "\\", "chars": " \\", "escapeQuote": True, "quote": '"', "always": True, "parent": "q-esc"},
@@ -357,14 +363,26 @@ def judge(case, impl, reply):
                 return Verdict("violation", f"SigmaString({src!r}) {f}: implementation {show(impl[f]) if isinstance(impl[f], list) else impl[f]!r} vs character-level slice {show(reply[f]) if isinstance(reply[f], list) else reply[f]!r}", nt, key, tags=tags)
         return Verdict("ok", "", nt, key, tags=tags)
     if k == "field":
+        # every configuration is judged; the most severe outcome is reported (a known finding of one configuration
+        # must not hide a violation of another one)
+        viol = known = unj = drift = None
         for cfg, r, o in zip(FIELD_CFGS, reply["items"], impl["outs"]):
+            ctag = f"fcfg:{cfg['name']}"
             if not r["ok"]:
-                fid = "D7f" if not r["escCovered"] else None
-                return Verdict("violation", f"field {src!r} under {cfg['name']}: rendered {uncps(o)!r}, decoded as {uncps(r['implRead']) if r['implRead'] is not None else None!r}",
-                               nt, key, finding=fid, tags=tags + (f"fcfg:{cfg['name']}",))
-            if r["model"] != o:
-                return Verdict("drift", f"field {src!r} under {cfg['name']}: model {uncps(r['model'])!r} vs impl {uncps(o)!r}", nt, key, tags=tags)
-        return Verdict("ok", "", nt, key, tags=tags)
+                # strict reading: a quoted name ends at the first unescaped quote (Lean `readQuotedField`)
+                read = "nothing (the name is terminated early or malformed)" if r["implRead"] is None else repr(uncps(r["implRead"]))
+                what = (f"field {src!r} under {cfg['name']} (field_escape={cfg['escape']!r}, escape class [{cfg['chars']}], field_escape_quote={cfg['escapeQuote']}, "
+                        f"field_quote={cfg['quote']!r}): rendered {uncps(o)!r}, which the target reads as {read} instead of {src!r}")
+                if not r["escCovered"] and cfg["escape"] and cfg["escape"] in src:
+                    known = known or Verdict("violation", what, nt, key, finding="D7f", tags=tags + (ctag,))
+                elif not cfg["escapeQuote"] and not r["quoteEscaped"] and r["hasQuote"]:
+                    # the configuration says not to escape quotes and nothing else escapes them: the early termination is what was configured
+                    unj = unj or Verdict("ok", "", nt, key, tags=tags + (ctag, "unjudged:config-does-not-escape-quote"))
+                else:
+                    viol = viol or Verdict("violation", what, nt, key, tags=tags + (ctag,))
+            elif r["model"] != o:
+                drift = drift or Verdict("drift", f"field {src!r} under {cfg['name']}: model {uncps(r['model'])!r} vs impl {uncps(o)!r}", nt, key, tags=tags + (ctag,))
+        return viol or known or drift or unj or Verdict("ok", "", nt, key, tags=tags)
 
 
 def _d3_class(parts):
